@@ -70,3 +70,15 @@ Section Url.
     apply str_eqb_eq in H. contradiction.
   Qed.
 End Url.
+
+(** the rule is as good as its notion of "internal": if whatever [internal] accepts is internal by
+    an independent reading [ref] (validated by the harness on every host of every case), then an
+    accepted directory is HTTPS or internal by that reading *)
+Theorem https_unless_really_internal parse internal ref ca_url test_url use_test d :
+  (forall h, internal h = true -> ref h = true) ->
+  client_dir parse internal ca_url test_url use_test = Some d -> secure parse ref d = true.
+Proof.
+  intros Hsub H. apply https_unless_internal in H. unfold secure in *.
+  destruct (parse (effective d)) as [[sch host]|]; [|discriminate].
+  apply Bool.orb_true_iff in H. apply Bool.orb_true_iff. destruct H as [H|H]; auto.
+Qed.
